@@ -31,6 +31,7 @@ type fakeT struct {
 	logs     []string
 	cleanups []func()
 	skipped  bool
+	failed   bool
 	buf      []byte
 }
 
@@ -76,6 +77,27 @@ func (f *fakeT) Name() string             { return f.name }
 func (f *fakeT) Error(a ...any) {
 	f.mu.Lock()
 	f.errors = append(f.errors, fmt.Sprint(a...))
+	f.failed = true
+	f.mu.Unlock()
+}
+
+// Failed and Skipped: the rest of what a *testing.T answers about itself (code that type-asserts for them finds them).
+// A test stays failed once Error was called, whatever the harness drains in between.
+func (f *fakeT) Failed() bool {
+	f.mu.Lock()
+	defer f.mu.Unlock()
+	return f.failed
+}
+func (f *fakeT) Skipped() bool {
+	f.mu.Lock()
+	defer f.mu.Unlock()
+	return f.skipped
+}
+
+// plainSkip: the test ends through the testing package's own t.Skip (not through snaps.Skip*).
+func (f *fakeT) plainSkip() {
+	f.mu.Lock()
+	f.skipped = true
 	f.mu.Unlock()
 }
 func (f *fakeT) Log(a ...any) {
@@ -189,6 +211,34 @@ func captureStdout(fn func()) string {
 	return out
 }
 
+// foreignTmp: while set, Clean runs with TMPDIR on ANOTHER file system than the snapshot directories (a tmpfs /tmp next to
+// a checkout on disk, a container with a bind-mounted workspace). Nothing the properties speak about depends on TMPDIR.
+var foreignTmp bool
+
+func withForeignTmp(fn func()) {
+	const shm = "/dev/shm"
+	if st, err := os.Stat(shm); !foreignTmp || err != nil || !st.IsDir() {
+		fn()
+		return
+	}
+	d, err := os.MkdirTemp(shm, "verif-tmpdir")
+	if err != nil {
+		fn()
+		return
+	}
+	old, had := os.LookupEnv("TMPDIR")
+	os.Setenv("TMPDIR", d)
+	defer func() {
+		if had {
+			os.Setenv("TMPDIR", old)
+		} else {
+			os.Unsetenv("TMPDIR")
+		}
+		os.RemoveAll(d)
+	}()
+	fn()
+}
+
 // runClean calls the exported Clean with -run/-count set the way the real runner would have them.
 func runClean(runOnly string, count int, opts ...CleanOpts) string {
 	fr, fc := flag.Lookup("test.run"), flag.Lookup("test.count")
@@ -199,5 +249,5 @@ func runClean(runOnly string, count int, opts ...CleanOpts) string {
 	}()
 	flag.Set("test.run", runOnly)
 	flag.Set("test.count", strconv.Itoa(count))
-	return captureStdout(func() { Clean(nil, opts...) })
+	return captureStdout(func() { withForeignTmp(func() { Clean(nil, opts...) }) })
 }
